@@ -616,25 +616,64 @@ Definition find_ext {A} (f : ext -> option A) (es : list ext) : option A :=
   fold_right (fun e acc => match f e with Some a => Some a | None => acc end) None es.
 Definition exts_of (h : hello) : list ext := match h_extensions h with Some es => es | None => [] end.
 
-Definition host_name_of (names : list (N * list byte)) : list byte :=
-  match find (fun e => (fst e =? 0)%N) names with Some e => snd e | None => [] end.
+(* the host_name entry (name_type 0) of a ServerNameList *)
+Definition sni_sel (e : ext) : option (option (N * list byte)) :=
+  match e with EServerName n => Some (find (fun e => (fst e =? 0)%N) n) | _ => None end.
 Definition sni (h : hello) : list byte :=
-  match find_ext (fun e => match e with EServerName n => Some (host_name_of n) | _ => None end) (exts_of h) with
-  | Some n => n | None => [] end.
-Definition alpn (h : hello) : list (list byte) :=
-  match find_ext (fun e => match e with EALPN p => Some p | _ => None end) (exts_of h) with
-  | Some p => p | None => [] end.
-Definition curves (h : hello) : list N :=
-  match find_ext (fun e => match e with ESupportedGroups g => Some g | _ => None end) (exts_of h) with
-  | Some g => g | None => [] end.
+  match find_ext sni_sel (exts_of h) with Some (Some e) => snd e | _ => [] end.
+Definition alpn_sel (e : ext) := match e with EALPN p => Some p | _ => None end.
+Definition curves_sel (e : ext) := match e with ESupportedGroups g => Some g | _ => None end.
+Definition versions_sel (e : ext) := match e with ESupportedVersions v => Some v | _ => None end.
+Definition sigs_sel (e : ext) := match e with ESigAlgs v => Some v | _ => None end.
+Definition points_sel (e : ext) := match e with EPointFormats v => Some v | _ => None end.
+Definition or_nil {A} (o : option (list A)) : list A := match o with Some l => l | None => [] end.
+
+Definition alpn (h : hello) : list (list byte) := or_nil (find_ext alpn_sel (exts_of h)).
+Definition curves (h : hello) : list N := or_nil (find_ext curves_sel (exts_of h)).
 Definition versions (h : hello) : list N :=
-  match find_ext (fun e => match e with ESupportedVersions v => Some v | _ => None end) (exts_of h) with
+  match find_ext versions_sel (exts_of h) with
   | Some v => v
   | None => supported_versions_from_max (h_legacy_version h)
   end.
-Definition sig_schemes (h : hello) : list N :=
-  match find_ext (fun e => match e with ESigAlgs v => Some v | _ => None end) (exts_of h) with
-  | Some v => v | None => [] end.
-Definition point_formats (h : hello) : list byte :=
-  match find_ext (fun e => match e with EPointFormats v => Some v | _ => None end) (exts_of h) with
-  | Some v => v | None => [] end.
+Definition sig_schemes (h : hello) : list N := or_nil (find_ext sigs_sel (exts_of h)).
+Definition point_formats (h : hello) : list byte := or_nil (find_ext points_sel (exts_of h)).
+
+(* ---- the complete reading of a hello: what each extension contributes to the parsed info ---- *)
+Definition ext_effect (e : ext) (i : info) : info :=
+  match e with
+  | EServerName names =>
+      match find (fun e => (fst e =? 0)%N) names with Some e => set_server_name i (snd e) | None => i end
+  | EStatusRequest t _ _ => set_ocsp i (t =? 1)%N (* CertificateStatusType ocsp(1) *)
+  | ESupportedGroups l => set_curves i (i_curves i ++ l)
+  | EPointFormats fs => set_points i fs
+  | ESessionTicket t => set_session_ticket (set_ticket_supported i true) t
+  | ESigAlgs l => set_sigschemes i (i_sigschemes i ++ l)
+  | ESigAlgsCert l => set_sigschemes_cert i (i_sigschemes_cert i ++ l)
+  | ERenegotiationInfo d => set_reneg_supported (set_secure_reneg i d) true
+  | EALPN ps => set_protos i (i_protos i ++ ps)
+  | ESCT => set_scts i true
+  | ESupportedVersions l => set_versions i (i_versions i ++ l)
+  | ECookie c => set_cookie i c
+  | EKeyShare ks => set_keyshares i (i_keyshares i ++ ks)
+  | EEarlyData => set_early i true
+  | EPskModes ms => set_pskmodes i ms
+  | EPreSharedKey ids bs =>
+      let i1 := set_psk_ids i (i_psk_ids i ++ ids) in set_psk_binders i1 (i_psk_binders i1 ++ bs)
+  | EOpaque _ _ => i
+  end.
+Definition ext_step (i : info) (e : ext) : info :=
+  ext_effect e (set_extensions i (i_extensions i ++ [ext_type e])).
+
+(* the info of the fixed part: TLS_EMPTY_RENEGOTIATION_INFO_SCSV {0x00,0xFF} (RFC 5746 3.3) *)
+Definition info_of_fixed (h : hello) : info :=
+  let i := set_ciphers (set_session_id (set_random (set_version empty_info (h_legacy_version h)) (h_random h))
+                          (h_session_id h)) (h_ciphers h) in
+  let i := if existsb (fun x => (x =? 255)%N) (h_ciphers h) then set_reneg_supported i true else i in
+  set_compression i (h_compression h).
+
+Definition info_of_hello (h : hello) : info :=
+  let i := fold_left ext_step (exts_of h) (info_of_fixed h) in
+  match i_versions i with
+  | [] => set_versions i (supported_versions_from_max (h_legacy_version h))
+  | _ :: _ => i
+  end.
